@@ -53,7 +53,7 @@ def run(tier, seed):
     v.add_cov(evaluations=len(conn), distinct_nontrivial=len([e for e in conn if e.get("dial_ok") and e.get("up_written", 0) + e.get("down_got", 0) > 0]),
               rule="each evaluation is one user connection through a real frps / frpc pair (and a visitor frpc for stcp) in one sampled point of the option lattice kind tcp/stcp/https/tcpmux/xtcp (an xtcp visitor that falls back to its stcp visitor) x encryption x compression x "
                    "limit side x mux x transport x tls x pool x proxy-protocol x shared vhost port, two proxies with distinct backends, self-describing generator streams in both directions "
-                   "(sizes 0..3 MiB, random / zero / text content, write chunks 1 B..64 KiB) and one of four close patterns; non-trivial = connections that moved at least one byte",
+                   "(sizes 0..3 MiB, random / zero / text content, write chunks 1 B..64 KiB) and one of four close patterns, plus four simultaneous connections on one proxy (one limiter, one work-connection pool, pooled compression state); non-trivial = connections that moved at least one byte",
               driver_stats=stats)
     v.assumptions += ["function level: the real limit.Writer / limit.Reader are called on the grid burst 1..6 x length 0..20, on realistic sizes around the burst and in timed runs through a real token bucket (Trace_Limiter)",
                       "content is checked by regenerating each stream from the header the reader received (kind, stream id, nonce); counters and closure are judged by TLC on the Tunnel specification",
